@@ -40,6 +40,7 @@ type workerProc struct {
 	dead   bool
 	addr   string
 	stderr string
+	errBuf *lockedWriter
 	cond   *sync.Cond
 }
 
@@ -55,11 +56,12 @@ func startWorker(opts string, race bool) (*workerProc, error) {
 	stdin, _ := cmd.StdinPipe()
 	stdout, _ := cmd.StdoutPipe()
 	var errBuf strings.Builder
-	cmd.Stderr = &lockedWriter{w: &errBuf}
+	lw := &lockedWriter{w: &errBuf}
+	cmd.Stderr = lw
 	if err := cmd.Start(); err != nil {
 		return nil, err
 	}
-	wp := &workerProc{cmd: cmd, stdin: stdin}
+	wp := &workerProc{cmd: cmd, stdin: stdin, errBuf: lw}
 	wp.cond = sync.NewCond(&wp.mu)
 	go func() {
 		sc := bufio.NewScanner(stdout)
@@ -80,7 +82,7 @@ func startWorker(opts string, race bool) (*workerProc, error) {
 		_ = cmd.Wait()
 		wp.mu.Lock()
 		wp.dead = true
-		wp.stderr = errBuf.String()
+		wp.stderr = lw.String()
 		wp.cond.Broadcast()
 		wp.mu.Unlock()
 	}()
@@ -104,6 +106,12 @@ func startWorker(opts string, race bool) (*workerProc, error) {
 type lockedWriter struct {
 	mu sync.Mutex
 	w  *strings.Builder
+}
+
+func (l *lockedWriter) String() string {
+	l.mu.Lock()
+	defer l.mu.Unlock()
+	return l.w.String()
 }
 
 func (l *lockedWriter) Write(p []byte) (int, error) {
@@ -130,6 +138,70 @@ func (wp *workerProc) kill() {
 	if wp.cmd.Process != nil {
 		_ = wp.cmd.Process.Kill()
 	}
+}
+
+// finish asks the worker to exit by itself (so the race detector can print its
+// summary), waits briefly and returns what it wrote to stderr
+func (wp *workerProc) finish() string {
+	wp.send("quit")
+	deadline := time.Now().Add(3 * time.Second)
+	for {
+		wp.mu.Lock()
+		dead := wp.dead
+		wp.mu.Unlock()
+		if dead || time.Now().After(deadline) {
+			break
+		}
+		time.Sleep(5 * time.Millisecond)
+	}
+	wp.kill()
+	time.Sleep(20 * time.Millisecond)
+	wp.mu.Lock()
+	defer wp.mu.Unlock()
+	if wp.stderr != "" {
+		return wp.stderr
+	}
+	return wp.errBuf.String()
+}
+
+// raceDigest extracts the gldap frames of the first data race report
+func raceDigest(stderr string) string {
+	if p := os.Getenv("VERIF_RACE_DUMP"); p != "" && strings.Contains(stderr, "DATA RACE") {
+		if f, err := os.OpenFile(p, os.O_APPEND|os.O_CREATE|os.O_WRONLY, 0o644); err == nil {
+			_, _ = f.WriteString(stderr + "\n")
+			f.Close()
+		}
+	}
+	i := strings.Index(stderr, "WARNING: DATA RACE")
+	if i < 0 {
+		return ""
+	}
+	rep := stderr[i:]
+	if j := strings.Index(rep, "=================="); j > 0 {
+		rep = rep[:j]
+	}
+	var frames []string
+	// the first two stacks of the report (the two conflicting accesses): their innermost gldap frame
+	for si, sec := range strings.Split(rep, "\n\n") {
+		if si >= 2 {
+			break
+		}
+		for _, l := range strings.Split(sec, "\n") {
+			l = strings.TrimSpace(l)
+			if strings.HasPrefix(l, "github.com/jimlambrt/gldap") {
+				f := l
+				if k := strings.LastIndex(f, "("); k > 0 {
+					f = f[:k]
+				}
+				frames = append(frames, strings.TrimPrefix(f, "github.com/jimlambrt/"))
+				break
+			}
+		}
+	}
+	if len(frames) == 0 {
+		return "RACE outside-gldap"
+	}
+	return "RACE " + strings.Join(frames, "|")
 }
 
 func (wp *workerProc) snapshotEvents() ([]wevent, bool) {
@@ -560,6 +632,11 @@ func runLife(t *Toks) string {
 		got = append(got, real)
 		if !matched {
 			return "DIVERGE " + strconv.Itoa(k) + " " + strings.Join(got, " # ")
+		}
+	}
+	if race {
+		if d := raceDigest(wp.finish()); d != "" {
+			return d + " @ OK " + strings.Join(got, " # ")
 		}
 	}
 	return "OK " + strings.Join(got, " # ")
